@@ -128,6 +128,12 @@ func (c *cfPkg) cfKind(t types.Type, depth int) string {
 	if _, isTuple := t.(*types.Tuple); isTuple {
 		return ""
 	}
+	if p, isPtr := t.(*types.Pointer); isPtr && !cfValid(p.Elem()) {
+		return ""
+	}
+	if !cfValid(t.Underlying()) {
+		return ""
+	}
 	if _, isSig := t.Underlying().(*types.Signature); isSig {
 		return ""
 	}
@@ -199,7 +205,12 @@ func (c *cfPkg) cfTarget(e ast.Expr) (string, types.Type) {
 		if sel, ok := c.info.Selections[x]; ok && sel.Kind() == types.FieldVal {
 			owner := cfNamed(sel.Recv())
 			if owner == "" {
-				owner = "?"
+				// a field of an anonymous struct: name it through the field that holds the struct
+				if outer, _ := c.cfTarget(x.X); outer != "" {
+					owner = outer
+				} else {
+					owner = "?"
+				}
 			}
 			return owner + "." + sel.Obj().Name(), sel.Obj().Type()
 		}
@@ -525,8 +536,10 @@ func (c *cfPkg) cfArgsIn(fd *ast.FuncDecl, out *[]cfArg) {
 // ---- shape facts
 
 // cfFoldShape: handlePost must read
-//     X := <ctx parameter>
-//     for _, fn := range <recv>.httpContextFuncs { X = fn(X, <request parameter>) }
+//
+//	X := <ctx parameter>
+//	for _, fn := range <recv>.httpContextFuncs { X = fn(X, <request parameter>) }
+//
 // and hand X (never reassigned elsewhere) to handlePostRequest / handlePostNotification / handlePostResponse.
 func cfFoldShape(root *pkgSrc) (shape string, passes bool) {
 	fd, _ := root.funcDecl("httpServerHandler.handlePost")
@@ -624,8 +637,14 @@ func cfFoldShape(root *pkgSrc) (shape string, passes bool) {
 	return shape, passes
 }
 
-// cfFieldWriters: every syntactic write (assignment / composite literal key) of a field with this name.
-func cfFieldWriters(root *pkgSrc, field string) []string {
+// cfFieldWriters: every write (assignment / composite literal element / inc-dec) of the struct fields named in
+// targets ("Type.field"), resolved through go/types.
+func (c *cfPkg) cfFieldWriters(targets ...string) []string {
+	root := c.root
+	want := map[string]bool{}
+	for _, t := range targets {
+		want[t] = true
+	}
 	var out []string
 	for _, fname := range root.sortedFiles() {
 		for _, d := range root.files[fname].Decls {
@@ -637,11 +656,7 @@ func cfFieldWriters(root *pkgSrc, field string) []string {
 				switch x := n.(type) {
 				case *ast.AssignStmt:
 					for i, l := range x.Lhs {
-						e := l
-						if ix, ok := e.(*ast.IndexExpr); ok {
-							e = ix.X
-						}
-						if sel, ok := e.(*ast.SelectorExpr); ok && sel.Sel.Name == field {
+						if t, _ := c.cfTarget(l); want[t] {
 							r := "?"
 							if i < len(x.Rhs) {
 								r = mwSquash(root.mwCodeText(x.Rhs[i]))
@@ -649,12 +664,17 @@ func cfFieldWriters(root *pkgSrc, field string) []string {
 							out = append(out, funcName(fd)+": "+mwSquash(root.text(l))+x.Tok.String()+r)
 						}
 					}
-				case *ast.KeyValueExpr:
-					if id, ok := x.Key.(*ast.Ident); ok && id.Name == field {
-						out = append(out, funcName(fd)+": "+field+":"+mwSquash(root.mwCodeText(x.Value)))
+				case *ast.CompositeLit:
+					owner := cfNamed(c.info.TypeOf(x))
+					for _, el := range x.Elts {
+						if kv, ok := el.(*ast.KeyValueExpr); ok {
+							if id, ok := kv.Key.(*ast.Ident); ok && want[owner+"."+id.Name] {
+								out = append(out, funcName(fd)+": "+id.Name+":"+mwSquash(root.mwCodeText(kv.Value)))
+							}
+						}
 					}
 				case *ast.IncDecStmt:
-					if sel, ok := x.X.(*ast.SelectorExpr); ok && sel.Sel.Name == field {
+					if t, _ := c.cfTarget(x.X); want[t] {
 						out = append(out, funcName(fd)+": "+mwSquash(root.text(x)))
 					}
 				}
@@ -681,7 +701,7 @@ func cfSSEMessageShape(root *pkgSrc) (appliesToPost bool, injects bool) {
 		}
 		src := mwSquash(root.mwCodeText(fd.Body))
 		want := "ctx:=" + req + ".Context()if" + recv + ".contextFunc!=nil{ctx=" + recv + ".contextFunc(ctx," + req + ")}ctx=" + recv + ".createSessionContext(ctx,session)"
-		appliesToPost = req != "" && strings.Count(src, want) == 1 && strings.Count(src, "ctx=") == 3 && strings.Count(src, "ctx:=") == 1 &&
+		appliesToPost = req != "" && strings.Count(src, want) == 1 && strings.Count(src, "ctx=") == 2 && strings.Count(src, "ctx:=") == 1 &&
 			strings.Contains(src, recv+".handleRequestMessage(ctx,rawMessage,session)") &&
 			strings.Contains(src, recv+".handleNotificationMessage(ctx,rawMessage,session)") &&
 			strings.Contains(src, "session,err:="+recv+".getSessionFromRequest("+req+")")
@@ -718,11 +738,19 @@ func genCtxFlow(root *pkgSrc) {
 			switch o := c.pkg.Scope().Lookup(n).(type) {
 			case *types.TypeName:
 				if st, ok := o.Type().Underlying().(*types.Struct); ok && !o.IsAlias() {
-					for i := 0; i < st.NumFields(); i++ {
-						if k := c.cfKind(st.Field(i).Type(), 0); k != "" {
-							fields = append(fields, cfField{n + "." + st.Field(i).Name(), k})
+					var walk func(prefix string, st *types.Struct, depth int)
+					walk = func(prefix string, st *types.Struct, depth int) {
+						for i := 0; i < st.NumFields(); i++ {
+							ft := st.Field(i).Type()
+							if k := c.cfKind(ft, 0); k != "" {
+								fields = append(fields, cfField{prefix + "." + st.Field(i).Name(), k})
+							}
+							if inner, ok := ft.(*types.Struct); ok && depth < 4 {
+								walk(prefix+"."+st.Field(i).Name(), inner, depth+1)
+							}
 						}
 					}
+					walk(n, st, 0)
 				}
 			case *types.Var:
 				if k := c.cfKind(o.Type(), 0); k != "" {
@@ -879,8 +907,8 @@ func genCtxFlow(root *pkgSrc) {
 	}
 
 	shape, passes := cfFoldShape(root)
-	writers := cfFieldWriters(root, "httpContextFuncs")
-	sseWriters := cfFieldWriters(root, "contextFunc")
+	writers := c.cfFieldWriters("serverConfig.httpContextFuncs", "httpServerHandler.httpContextFuncs")
+	sseWriters := c.cfFieldWriters("SSEServer.contextFunc")
 	ssePost, sseInject := cfSSEMessageShape(root)
 
 	var b strings.Builder
@@ -939,10 +967,6 @@ func genCtxFlow(root *pkgSrc) {
 	fmt.Fprintf(&b, "/-- `handlePost` folds `h.httpContextFuncs` over the request context first-registered-first (shape found: %s). -/\ndef cfPostFoldAscending : Bool := %s\n", shape, leanBool(shape == "ascending"))
 	fmt.Fprintf(&b, "def cfPostFoldDescending : Bool := %s\n", leanBool(shape == "descending"))
 	fmt.Fprintf(&b, "/-- the folded context (assigned nowhere else) is what handlePostRequest / handlePostNotification / handlePostResponse receive. -/\ndef cfPostPassesEnriched : Bool := %s\n", leanBool(passes))
-	wantW := []string{
-		"Server.initComponents: httpOptions=append(httpOptions,withTransportHTTPContextFuncs(s.config.httpContextFuncs))",
-	}
-	_ = wantW
 	regOK := len(writers) == 2 &&
 		writers[0] == "WithHTTPContextFunc: s.config.httpContextFuncs=append(s.config.httpContextFuncs,fn)" &&
 		writers[1] == "withTransportHTTPContextFuncs: h.httpContextFuncs=funcs"
